@@ -91,6 +91,9 @@ func runC20(c *Ctx) {
 	ruleDecodeRanges(c, "R20.2")
 	ruleDecoderFieldCorrespondence(c, "R20.3")
 	ruleSaveReplacesContent(c, "R20.4")
+	ruleCodecsCopyVerbatim(c, "R20.6")
+	ruleFallbacksNotClobbered(c, "R20.7")
+	ruleGroupDecoderLeavesNodesAlone(c, "R20.3")
 	ruleDecodersRejectOnlyUndecodable(c, "R20.5")
 }
 
@@ -370,6 +373,7 @@ func runC17(c *Ctx) {
 	ruleGroupHash(c, "R17.2")
 	ruleJSONHashCheck(c, "R17.3")
 	ruleHashedFieldsMirrored(c, "R17.4")
+	ruleGroupDecoderLeavesNodesAlone(c, "R17.6")
 	ruleChainInfoInputs(c, "R17.5") // what is fed to the chain hash is the carried-over seed, not a value that changes with membership
 }
 
@@ -425,6 +429,7 @@ func ruleChainHashInputs(c *Ctx, rule string) {
 	if !c.Anchor(rule, "common/chain.(*Info).Hash", fn != nil) {
 		return
 	}
+	ruleNoFixedWidthCopyOfSlices(c, rule, fn)
 	inputs := map[string]bool{}
 	other := map[string]bool{}
 	for _, w := range hashWrites(fn) {
@@ -1017,4 +1022,184 @@ func sortedOnEveryPath(sortCall *ssa.Call, use ssa.Instruction) bool {
 func sameFuncValue(a, b ssa.Value) bool {
 	fa, fb := funcValuesOf(a), funcValuesOf(b)
 	return len(fa) == 1 && len(fb) == 1 && fa[0] == fb[0]
+}
+
+// ruleNoFixedWidthCopyOfSlices: a variable-length input (a []byte field such as the genesis seed) is hashed as it is.
+// Copying it into a fixed-size array first truncates longer values and zero-pads shorter ones: inputs that differ beyond the
+// array (or only by trailing zeroes) get the same hash.
+func ruleNoFixedWidthCopyOfSlices(c *Ctx, rule string, fn *ssa.Function) {
+	n := 0
+	for _, w := range hashWrites(fn) {
+		n++
+		sl, ok := stripConv(w).(*ssa.Slice)
+		if !ok {
+			continue
+		}
+		arr, ok := sl.X.(*ssa.Alloc)
+		if !ok {
+			continue
+		}
+		if _, isArr := deref(arr.Type()).Underlying().(*types.Array); !isArr {
+			continue
+		}
+		// is the array filled by copy(arr[:], <slice>)?
+		bad := ""
+		for _, r := range *arr.Referrers() {
+			s2, isSl := r.(*ssa.Slice)
+			if !isSl {
+				continue
+			}
+			for _, rr := range *s2.Referrers() {
+				call, isCall := rr.(*ssa.Call)
+				if !isCall {
+					continue
+				}
+				if b, isB := call.Common().Value.(*ssa.Builtin); isB && b.Name() == "copy" && call.Common().Args[0] == ssa.Value(s2) {
+					if _, srcIsSlice := call.Common().Args[1].Type().Underlying().(*types.Slice); srcIsSlice {
+						bad = trimTemps(pathOf(call.Common().Args[1]))
+					}
+				}
+			}
+		}
+		if bad != "" {
+			c.Ok(rule, fnShort(fn)+" hashes "+bad+" as it is", shortPos(c.P, sl), false,
+				"the slice is copied into a fixed-size array before it is hashed: longer values are truncated, shorter ones zero-padded")
+		}
+	}
+	_ = n
+}
+
+// ruleGroupDecoderLeavesNodesAlone: what a node of a decoded group is (index, identity) comes from that node's own decoder.
+// The group decoders only place the decoded nodes in the list; a fix-up that rewrites a node's index from its position in
+// the file makes the loaded group, and its hash, depend on the order in which the nodes happen to be listed.
+func ruleGroupDecoderLeavesNodesAlone(c *Ctx, rule string) {
+	c.ranRules[rule] = true
+	n := 0
+	for _, key := range []string{"common/key.(*Group).FromTOML", "common/key.GroupFromProto"} {
+		fn := c.P.Fn(key)
+		if !c.Anchor(rule, key, fn != nil) {
+			continue
+		}
+		n++
+		bad := ""
+		forEachInstr(fn, func(_ *ssa.BasicBlock, _ int, in ssa.Instruction) {
+			st, ok := in.(*ssa.Store)
+			if !ok {
+				return
+			}
+			fa, isFA := st.Addr.(*ssa.FieldAddr)
+			if !isFA || typeShort(fa.X.Type()) != "common/key.Node" {
+				return
+			}
+			// building a fresh Node from decoded parts (composite literal) is decoding; updating a node that already went
+			// through its decoder is a rewrite
+			if isFreshObject(fa.X) {
+				return
+			}
+			bad = "Node." + fieldName(fa.X.Type(), fa.Field) + " assigned at " + shortPos(c.P, in)
+		})
+		c.Ok(rule, fnShort(fn)+" does not rewrite decoded nodes", c.P.Pos(fn.Pos()), bad == "", bad)
+	}
+	c.Floor(rule, "group decoders", n, 2)
+}
+
+// R20.6: encoders and decoders copy text and byte fields verbatim. A normalisation applied on one side only (lower-casing
+// an address while decoding, trimming while encoding) makes the decoded value differ from the encoded one for every input
+// the normalisation changes, while all lower-case / already-trimmed test data round-trips.
+func ruleCodecsCopyVerbatim(c *Ctx, rule string) {
+	c.ranRules[rule] = true
+	isNormaliser := func(n string) bool {
+		for _, p := range []string{"strings.ToLower", "strings.ToUpper", "strings.Title", "strings.TrimSpace", "strings.Trim", "strings.TrimLeft", "strings.TrimRight",
+			"strings.TrimPrefix", "strings.TrimSuffix", "strings.Replace", "strings.ReplaceAll", "strings.Map", "strings.ToValidUTF8",
+			"bytes.ToLower", "bytes.ToUpper", "bytes.TrimSpace", "bytes.Trim", "bytes.TrimLeft", "bytes.TrimRight", "bytes.TrimPrefix", "bytes.TrimSuffix", "bytes.Replace", "bytes.ReplaceAll",
+			"path.Clean", "path/filepath.Clean", "net/url.PathEscape", "unicode.ToLower", "unicode.ToUpper"} {
+			if n == p {
+				return true
+			}
+		}
+		return false
+	}
+	n := 0
+	seen := map[*ssa.Function]bool{}
+	for _, sp := range mirrorTable {
+		fn := c.P.Fn(sp.fn)
+		if fn == nil || seen[fn] {
+			continue
+		}
+		seen[fn] = true
+		n++
+		bad := ""
+		for _, f := range withClosures(fn) {
+			for _, ci := range callsIn(f, func(ci ssa.CallInstruction) bool { return isNormaliser(calleeName(ci)) }) {
+				bad = calleeName(ci) + " at " + shortPos(c.P, ci)
+			}
+		}
+		c.Ok(rule, fnShort(fn)+" copies text and byte fields verbatim", c.P.Pos(fn.Pos()), bad == "", ifStr(bad != "", "one-sided normalisation: "+bad))
+	}
+	c.Floor(rule, "encoders and decoders examined", n, 20)
+}
+
+// R20.7: a decoder that accepts two spellings of a field (a current one and a legacy one) assigns the plain value first and
+// the fallback afterwards. An unconditional assignment that comes after a conditional one overwrites whatever the
+// conditional branch decoded.
+func ruleFallbacksNotClobbered(c *Ctx, rule string) {
+	c.ranRules[rule] = true
+	n := 0
+	for _, sp := range mirrorTable {
+		if sp.kind != "dec" {
+			continue
+		}
+		fn := c.P.Fn(sp.fn)
+		if fn == nil {
+			continue
+		}
+		n++
+		byField := map[string][]*ssa.Store{}
+		forEachInstr(fn, func(_ *ssa.BasicBlock, _ int, in ssa.Instruction) {
+			if st, ok := in.(*ssa.Store); ok {
+				if fa, isFA := st.Addr.(*ssa.FieldAddr); isFA && typeShort(fa.X.Type()) == sp.typ {
+					k := uniq(fa.X) + "." + fieldName(fa.X.Type(), fa.Field)
+					byField[k] = append(byField[k], st)
+				}
+			}
+		})
+		bad := ""
+		for k, sts := range byField {
+			if len(sts) < 2 {
+				continue
+			}
+			for _, cond := range sts {
+				if passesThroughOnAllPaths(fn, cond.Block()) {
+					continue // not a conditional assignment
+				}
+				for _, later := range sts {
+					if later == cond || !passesThroughOnAllPathsFrom(fn, cond, later) {
+						continue
+					}
+					bad = k[strings.LastIndex(k, ".")+1:] + ": the assignment at " + shortPos(c.P, later) + " always follows the conditional one at " + shortPos(c.P, cond)
+				}
+			}
+		}
+		c.Ok(rule, fnShort(fn)+" does not overwrite a conditionally decoded field", c.P.Pos(fn.Pos()), bad == "", bad)
+	}
+	c.Floor(rule, "decoders examined", n, 8)
+}
+
+// passesThroughOnAllPathsFrom: every path from instruction a to a return passes instruction b (b strictly after a).
+func passesThroughOnAllPathsFrom(fn *ssa.Function, a, b ssa.Instruction) bool {
+	if a.Block() == b.Block() {
+		return instrIndex(a) < instrIndex(b)
+	}
+	if !reachableFrom(a.Block(), nil)[b.Block()] {
+		return false
+	}
+	for _, r := range successReturns(fn) {
+		if r.Block() == b.Block() {
+			continue
+		}
+		if reachableAvoidingFrom(a.Block(), r.Block(), func(e edge) bool { return e.to() == b.Block() }) {
+			return false
+		}
+	}
+	return true
 }
